@@ -4,7 +4,7 @@
    the documented exclusions are always refused; alternative spellings normalise to the canonical value. *)
 From Coq Require Import String.
 From Coq Require Import ZArith List Bool Lia ZifyBool.
-From Segno Require Import Base.PyLite Ref.IsoData Ref.Spec.
+From Segno Require Import Base.PyLite Base.PyCase Ref.IsoData Ref.Spec.
 From Segno Require Import Model.Bits Model.Segment Model.Version Model.Stream Model.Matrix Model.Encode Model.Sequence Model.Color Model.Args.
 From Segno Require Import Lemmas.PackLemmas Lemmas.ModeLemmas Lemmas.VersionLemmas Lemmas.PadLemmas Lemmas.RsModel Lemmas.BlockLemmas Lemmas.MaskLemmas Lemmas.GeomLemmas.
 Import ListNotations.
@@ -28,65 +28,168 @@ Qed.
 Lemma str_eqb_refl (a : list Z) : str_eqb a a = true.
 Proof. apply str_eqb_eq. reflexivity. Qed.
 
-Lemma upper_cp_idem c : upper_cp (upper_cp c) = upper_cp c.
-Proof. unfold upper_cp. destruct ((97 <=? c) && (c <=? 122)) eqn:E; [|rewrite E; reflexivity].
-  destruct ((97 <=? c - 32) && (c - 32 <=? 122)) eqn:E2; [lia|reflexivity]. Qed.
-Lemma lower_cp_idem c : lower_cp (lower_cp c) = lower_cp c.
-Proof. unfold lower_cp. destruct ((65 <=? c) && (c <=? 90)) eqn:E; [|rewrite E; reflexivity].
-  destruct ((65 <=? c + 32) && (c + 32 <=? 90)) eqn:E2; [lia|reflexivity]. Qed.
-Lemma upper_idem s : upper (upper s) = upper s.
-Proof. unfold upper. rewrite map_map. apply map_ext. intros c. apply upper_cp_idem. Qed.
-Lemma lower_idem s : lower (lower s) = lower s.
-Proof. unfold lower. rewrite map_map. apply map_ext. intros c. apply lower_cp_idem. Qed.
-
-(* ---- Python int(str) is blind to str.upper(): no character it accepts is a letter ---- *)
+(* ---- Python int(str) is blind to (ASCII) str.ascii_upper(): no character it accepts is a letter ---- *)
 Lemma upper_cp_class c :
-  is_ws (upper_cp c) = is_ws c /\ is_dig (upper_cp c) = is_dig c /\
-  (upper_cp c =? 45) = (c =? 45) /\ (upper_cp c =? 43) = (c =? 43) /\ (upper_cp c =? 95) = (c =? 95) /\
-  (is_dig c = true -> upper_cp c = c).
+  is_ws (ascii_upper_cp c) = is_ws c /\ is_dig (ascii_upper_cp c) = is_dig c /\
+  (ascii_upper_cp c =? 45) = (c =? 45) /\ (ascii_upper_cp c =? 43) = (c =? 43) /\ (ascii_upper_cp c =? 95) = (c =? 95) /\
+  (is_dig c = true -> ascii_upper_cp c = c).
 Proof.
-  unfold upper_cp, is_ws, is_dig, memZ. cbn [existsb].
+  unfold ascii_upper_cp, is_ws, is_dig, memZ. cbn [existsb].
   destruct ((97 <=? c) && (c <=? 122)) eqn:E; repeat split; try reflexivity; try lia.
 Qed.
 
-Lemma lstrip_upper s : lstrip (upper s) = upper (lstrip s).
+Lemma lstrip_ascii_upper s : lstrip (ascii_upper s) = ascii_upper (lstrip s).
 Proof.
-  induction s as [|c r IH]; [reflexivity|]. cbn [upper map lstrip].
+  induction s as [|c r IH]; [reflexivity|]. cbn [ascii_upper map lstrip].
   destruct (upper_cp_class c) as (Hw & _). rewrite Hw. destruct (is_ws c); [exact IH|reflexivity].
 Qed.
-Lemma upper_rev s : upper (rev s) = rev (upper s).
-Proof. unfold upper. apply map_rev. Qed.
-Lemma strip_upper s : strip (upper s) = upper (strip s).
-Proof. unfold strip. rewrite lstrip_upper, <- upper_rev, lstrip_upper, upper_rev. reflexivity. Qed.
+Lemma upper_rev s : ascii_upper (rev s) = rev (ascii_upper s).
+Proof. unfold ascii_upper. apply map_rev. Qed.
+Lemma strip_ascii_upper s : strip (ascii_upper s) = ascii_upper (strip s).
+Proof. unfold strip. rewrite lstrip_ascii_upper, <- upper_rev, lstrip_ascii_upper, upper_rev. reflexivity. Qed.
 
-Lemma digits_val_upper s : forall acc p, digits_val (upper s) acc p = digits_val s acc p.
+Lemma digits_val_ascii_upper s : forall acc p, digits_val (ascii_upper s) acc p = digits_val s acc p.
 Proof.
-  induction s as [|c r IH]; intros acc p; [reflexivity|]. cbn [upper map digits_val].
-  fold (upper r).
+  induction s as [|c r IH]; intros acc p; [reflexivity|]. cbn [ascii_upper map digits_val].
+  fold (ascii_upper r).
   destruct (upper_cp_class c) as (_ & Hd & _ & _ & H95 & Hid). rewrite Hd, H95.
   destruct (is_dig c) eqn:Edc.
   - rewrite (Hid eq_refl). apply IH.
   - destruct ((c =? 95) && p); [|reflexivity].
-    destruct r as [|d r']; [reflexivity|]. cbn [upper map]. fold (upper r').
+    destruct r as [|d r']; [reflexivity|]. cbn [ascii_upper map]. fold (ascii_upper r').
     destruct (upper_cp_class d) as (_ & Hdd & _). rewrite Hdd.
     destruct (is_dig d); [|reflexivity]. apply (IH acc false).
 Qed.
 
-Theorem int_of_str_upper s : int_of_str (upper s) = int_of_str s.
+Lemma int_of_ascii_ascii_upper s : int_of_ascii (ascii_upper s) = int_of_ascii s.
 Proof.
-  unfold int_of_str. rewrite strip_upper. destruct (strip s) as [|c r]; [reflexivity|].
-  cbn [upper map]. fold (upper r).
+  unfold int_of_ascii. rewrite strip_ascii_upper. destruct (strip s) as [|c r]; [reflexivity|].
+  cbn [ascii_upper map]. fold (ascii_upper r).
   destruct (upper_cp_class c) as (_ & Hd & H45 & H43 & _ & Hid). rewrite H45, H43.
-  destruct (c =? 45); [rewrite digits_val_upper; reflexivity|].
-  destruct (c =? 43); [rewrite digits_val_upper; reflexivity|].
-  change (upper_cp c :: upper r) with (upper (c :: r)). apply digits_val_upper.
+  destruct (c =? 45); [rewrite digits_val_ascii_upper; reflexivity|].
+  destruct (c =? 43); [rewrite digits_val_ascii_upper; reflexivity|].
+  change (ascii_upper_cp c :: ascii_upper r) with (ascii_upper (c :: r)). apply digits_val_ascii_upper.
+Qed.
+
+(* ... and str.ascii_upper() commutes with the rewriting of a non-ASCII str to ASCII (spaces, decimal digits, '?') *)
+Lemma is_ascii_ascii_upper s : is_ascii (ascii_upper s) = is_ascii s.
+Proof.
+  unfold is_ascii, ascii_upper. induction s as [|c r IH]; [reflexivity|]. cbn [map forallb]. rewrite IH. f_equal.
+  unfold ascii_upper_cp. destruct ((97 <=? c) && (c <=? 122)) eqn:E; lia.
+Qed.
+Lemma decimal_of_range c zs d : decimal_of c zs = Some d -> 0 <= d <= 9.
+Proof.
+  induction zs as [|z r IH]; cbn [decimal_of]; [discriminate|].
+  destruct ((z <=? c) && (c <=? z + 9)) eqn:E; [intros [= <-]; lia|exact IH].
+Qed.
+Lemma to_ascii_ascii_upper c : to_ascii_cp (ascii_upper_cp c) = ascii_upper_cp (to_ascii_cp c).
+Proof.
+  unfold ascii_upper_cp at 1. destruct ((97 <=? c) && (c <=? 122)) eqn:E.
+  - unfold to_ascii_cp. replace (c - 32 <? 127) with true by lia. replace (c <? 127) with true by lia.
+    unfold ascii_upper_cp. now rewrite E.
+  - unfold to_ascii_cp. destruct (c <? 127) eqn:E127; [unfold ascii_upper_cp; now rewrite E|].
+    destruct (memZ c UNI_SPACES); [reflexivity|].
+    destruct (decimal_of c DECIMAL_ZEROS) as [d|] eqn:Ed; [|reflexivity].
+    apply decimal_of_range in Ed. unfold ascii_upper_cp.
+    destruct ((97 <=? 48 + d) && (48 + d <=? 122)) eqn:E2; [lia|reflexivity].
+Qed.
+Lemma int_text_ascii_upper s : int_text (ascii_upper s) = ascii_upper (int_text s).
+Proof.
+  unfold int_text. rewrite is_ascii_ascii_upper. destruct (is_ascii s); [reflexivity|].
+  unfold ascii_upper. rewrite !map_map. apply map_ext. exact to_ascii_ascii_upper.
+Qed.
+Lemma digit_count_ascii_upper t : lenZ (filter is_dig (ascii_upper t)) = lenZ (filter is_dig t).
+Proof.
+  unfold lenZ. f_equal. induction t as [|c r IH]; [reflexivity|]. cbn [ascii_upper map filter]. fold (ascii_upper r).
+  destruct (upper_cp_class c) as (_ & Hd & _). rewrite Hd. destruct (is_dig c); cbn [List.length]; now rewrite IH.
+Qed.
+
+Theorem int_of_str_ascii_upper s : int_of_str (ascii_upper s) = int_of_str s.
+Proof. unfold int_of_str. cbv zeta. now rewrite int_text_ascii_upper, digit_count_ascii_upper, int_of_ascii_ascii_upper. Qed.
+
+(* ---- ... and to Python's str.upper() on EVERY str (Base/PyCase.v).  A str without one of the 17 non-ASCII code points
+   whose upper() contains an ASCII character is uppered like an ASCII str (other non-ASCII code points are kept by the
+   model; int() looks at them through to_ascii_cp, which commutes: to_ascii_ascii_upper).  A str WITH such a code point
+   x is no int literal (x is neither a Unicode space nor a decimal digit: '?'), and neither is its upper(): it contains
+   an ASCII capital letter, which int() never accepts. ---- *)
+Definition int_bad (c : Z) : bool := negb (is_ws c || is_dig c || (c =? 45) || (c =? 43) || (c =? 95)).
+Lemma In_lstrip c s : In c s -> is_ws c = false -> In c (lstrip s).
+Proof.
+  induction s as [|d r IH]; [intros []|]. intros [->|H] Hw; cbn [lstrip].
+  - rewrite Hw. left. reflexivity.
+  - destruct (is_ws d); [exact (IH H Hw)|right; exact H].
+Qed.
+Lemma In_strip c s : In c s -> is_ws c = false -> In c (strip s).
+Proof.
+  intros H Hw. unfold strip. apply -> in_rev. apply In_lstrip; [|exact Hw]. apply -> in_rev. apply In_lstrip; assumption.
+Qed.
+Lemma digits_val_bad c s : In c s -> int_bad c = true -> forall acc p, digits_val s acc p = None.
+Proof.
+  unfold int_bad. intros H Hb. apply negb_true_iff in Hb. apply orb_false_iff in Hb. destruct Hb as [Hb H95].
+  apply orb_false_iff in Hb. destruct Hb as [Hb _]. apply orb_false_iff in Hb. destruct Hb as [Hb _].
+  apply orb_false_iff in Hb. destruct Hb as [_ Hd].
+  induction s as [|d r IH]; [destruct H|]. intros acc p. cbn [digits_val].
+  destruct (is_dig d) eqn:Ed.
+  - destruct H as [->|H]; [rewrite Hd in Ed; discriminate Ed|]. exact (IH H _ _).
+  - destruct ((d =? 95) && p) eqn:Eu; [|reflexivity].
+    destruct H as [->|H]; [rewrite H95 in Eu; discriminate Eu|].
+    destruct r as [|e r']; [reflexivity|]. destruct (is_dig e); [exact (IH H _ _)|reflexivity].
+Qed.
+Lemma int_of_ascii_bad c t : In c t -> int_bad c = true -> int_of_ascii t = None.
+Proof.
+  intros H Hb. assert (Hw : is_ws c = false).
+  { unfold int_bad in Hb. apply negb_true_iff in Hb. destruct (is_ws c); [discriminate Hb|reflexivity]. }
+  assert (H45 : (c =? 45) = false /\ (c =? 43) = false).
+  { unfold int_bad in Hb. apply negb_true_iff in Hb. destruct (c =? 45), (c =? 43); rewrite ?orb_true_r in Hb; try discriminate Hb; split; reflexivity. }
+  pose proof (In_strip c t H Hw) as Hs. unfold int_of_ascii. destruct (strip t) as [|d r]; [reflexivity|].
+  destruct (d =? 45) eqn:E1.
+  - destruct Hs as [->|Hs]; [destruct H45 as [F _]; rewrite F in E1; discriminate E1|]. rewrite (digits_val_bad c r Hs Hb). reflexivity.
+  - destruct (d =? 43) eqn:E2.
+    + destruct Hs as [->|Hs]; [destruct H45 as [_ F]; rewrite F in E2; discriminate E2|]. exact (digits_val_bad c r Hs Hb _ _).
+    + exact (digits_val_bad c (d :: r) Hs Hb _ _).
+Qed.
+Lemma int_of_str_bad c s : In c (int_text s) -> int_bad c = true -> int_of_str s = None.
+Proof.
+  intros H Hb. unfold int_of_str. cbv zeta. rewrite (int_of_ascii_bad c _ H Hb). destruct (_ <? _); reflexivity.
+Qed.
+(* the 17 code points are rewritten to '?' by int() *)
+Lemma upper_special_question : forallb (fun p => to_ascii_cp (fst p) =? 63) UPPER_SPECIAL = true.
+Proof. vm_compute. reflexivity. Qed.
+Lemma capital_bad y : 65 <= y <= 90 -> int_bad y = true /\ to_ascii_cp y = y.
+Proof.
+  intros Hy. unfold int_bad, is_ws, is_dig, memZ, to_ascii_cp. cbn [existsb]. split.
+  - repeat match goal with |- context [?a =? ?b] => replace (a =? b) with false by lia end.
+    replace (48 <=? y) with true by lia. replace (y <=? 57) with false by lia. reflexivity.
+  - replace (y <? 127) with true by lia. reflexivity.
+Qed.
+Lemma is_ascii_false_In x s : In x s -> 128 <= x -> is_ascii s = false.
+Proof.
+  intros H Hx. unfold is_ascii. destruct (forallb (fun c => c <? 128) s) eqn:E; [|reflexivity].
+  pose proof (proj1 (forallb_forall _ _) E x H) as F. cbn beta in F. lia.
+Qed.
+Lemma int_of_str_special s : no_upper_special s = false -> int_of_str s = None /\ int_of_str (py_upper s) = None.
+Proof.
+  intros Hs. destruct (py_upper_has_special s Hs) as (x & l & Hx & Hl & Himg). split.
+  - apply (int_of_str_bad 63); [|reflexivity]. unfold int_text.
+    rewrite (is_ascii_false_In x s Hx (upper_special_nonascii x l Hl)).
+    pose proof (proj1 (forallb_forall _ _) upper_special_question _ Hl) as F. cbn [fst] in F. apply Z.eqb_eq in F.
+    rewrite <- F. apply in_map. exact Hx.
+  - destruct (upper_special_letter x l Hl) as (y & Hy & Hr). destruct (capital_bad y Hr) as [Hb Hk].
+    apply (int_of_str_bad y); [|exact Hb]. unfold int_text. destruct (is_ascii (py_upper s)); [exact (Himg y Hy)|].
+    rewrite <- Hk. apply in_map. exact (Himg y Hy).
+Qed.
+Theorem int_of_str_upper s : int_of_str (py_upper s) = int_of_str s.
+Proof.
+  destruct (no_upper_special s) eqn:Es.
+  - rewrite (py_upper_plain s Es). apply int_of_str_ascii_upper.
+  - destruct (int_of_str_special s Es) as [-> ->]. reflexivity.
 Qed.
 
 (* ---- normalize_version ---- *)
 Definition ver_pre (version : pyval) : option Z :=
   match py_int_val version with
   | Ok z => if z <? 1 then None else Some z
-  | Err _ => match version with VStr s => assoc_sz (upper s) MICRO_VERSION_MAPPING | _ => None end
+  | Err _ => match version with VStr s => assoc_sz (py_upper s) MICRO_VERSION_MAPPING | _ => None end
   end.
 Definition ver_post (r : option Z) : res (option Z) :=
   match r with
@@ -161,11 +264,11 @@ Proof. intros H. rewrite !normalize_version_eq. unfold ver_pre. cbn [py_int_val]
 (* ... any other string only as a Micro QR name, looked up after str.upper() *)
 Theorem normalize_version_str_name s :
   int_of_str s = None ->
-  normalize_version (VStr s) = match assoc_sz (upper s) MICRO_VERSION_MAPPING with
+  normalize_version (VStr s) = match assoc_sz (py_upper s) MICRO_VERSION_MAPPING with
                                | Some x => Ok (Some x) | None => Err ValueError end.
 Proof.
   intros H. rewrite normalize_version_eq. unfold ver_pre. cbn [py_int_val]. rewrite H.
-  destruct (assoc_sz (upper s) MICRO_VERSION_MAPPING) as [x|] eqn:E; [|reflexivity].
+  destruct (assoc_sz (py_upper s) MICRO_VERSION_MAPPING) as [x|] eqn:E; [|reflexivity].
   apply ver_post_range.
   unfold MICRO_VERSION_MAPPING in E. cbn [assoc_sz] in E.
   repeat match type of E with (if ?c then _ else _) = _ => destruct c; [injection E as <-; lia|] end.
@@ -188,12 +291,23 @@ Proof.
     destruct Hc as [->|[->|[->| ->]]]; reflexivity.
 Qed.
 
-(* the strings whose upper-case form is "M<d>": "M<d>" and "m<d>" *)
-Lemma upper_is_name s k : 0 <= k <= 3 -> upper s = name_M k -> s = [77; 49 + k] \/ s = [109; 49 + k].
+(* the strings whose upper-case form is "M<d>": "M<d>" and "m<d>" (no image of a non-ASCII code point has an 'M' or a digit) *)
+Lemma upper_images_no_M : forallb (fun p => forallb (fun y => negb (y =? 77) && negb ((49 <=? y) && (y <=? 52))) (snd p)) UPPER_SPECIAL = true.
+Proof. vm_compute. reflexivity. Qed.
+Lemma upper_is_name s k : 0 <= k <= 3 -> py_upper s = name_M k -> s = [77; 49 + k] \/ s = [109; 49 + k].
 Proof.
-  intros Hk H. destruct s as [|a [|b [|c r]]]; try discriminate H.
-  unfold name_M in H. remember (49 + k) as d eqn:Ed. cbn [upper map] in H. injection H as Ha Hb.
-  unfold upper_cp in Ha, Hb.
+  intros Hk H.
+  assert (Hp : no_upper_special s = true).
+  { destruct (no_upper_special s) eqn:Es; [reflexivity|exfalso].
+    destruct (py_upper_has_special s Es) as (x & l & _ & Hl & Himg).
+    pose proof (proj1 (forallb_forall _ _) upper_images_no_M _ Hl) as F. cbn [snd] in F.
+    destruct l as [|y l']; [pose proof (proj1 (forallb_forall _ _) upper_special_facts _ Hl) as G; apply andb_prop in G; destruct G as [_ G]; discriminate G|].
+    cbn [forallb] in F. apply andb_prop in F. destruct F as [F _].
+    specialize (Himg y (or_introl eq_refl)). rewrite H in Himg. unfold name_M in Himg. cbn [In] in Himg. lia. }
+  rewrite (py_upper_plain s Hp) in H.
+  destruct s as [|a [|b [|c r]]]; try discriminate H.
+  unfold name_M in H. remember (49 + k) as d eqn:Ed. cbn [ascii_upper map] in H. injection H as Ha Hb.
+  unfold ascii_upper_cp in Ha, Hb.
   destruct ((97 <=? a) && (a <=? 122)) eqn:Ea; destruct ((97 <=? b) && (b <=? 122)) eqn:Eb; try lia.
   - right. f_equal; [lia|]. f_equal. lia.
   - left. f_equal; [lia|]. f_equal. lia.
@@ -206,12 +320,12 @@ Qed.
 
 (* "M1".."M4" in any letter case give -3..0 *)
 Theorem normalize_version_micro_name s k :
-  0 <= k <= 3 -> upper s = name_M k -> normalize_version (VStr s) = Ok (Some (k - 3)).
+  0 <= k <= 3 -> py_upper s = name_M k -> normalize_version (VStr s) = Ok (Some (k - 3)).
 Proof.
   intros Hk Hu. assert (Hn : int_of_str s = None).
   { destruct (upper_is_name s k Hk Hu) as [-> | ->]; apply (name_not_int k Hk). }
   rewrite (normalize_version_str_name s Hn).
-  assert (E : assoc_sz (upper s) MICRO_VERSION_MAPPING = Some (k - 3)).
+  assert (E : assoc_sz (py_upper s) MICRO_VERSION_MAPPING = Some (k - 3)).
   { apply assoc_micro_names. exists k. repeat split; try lia. exact Hu. }
   rewrite E. reflexivity.
 Qed.
@@ -219,14 +333,14 @@ Qed.
 (* exact characterisation of the accepted strings *)
 Theorem normalize_version_str_iff s x :
   normalize_version (VStr s) = Ok (Some x) <->
-  (int_of_str s = Some x /\ 1 <= x <= 40) \/ (exists k, 0 <= k <= 3 /\ upper s = name_M k /\ x = k - 3).
+  (int_of_str s = Some x /\ 1 <= x <= 40) \/ (exists k, 0 <= k <= 3 /\ py_upper s = name_M k /\ x = k - 3).
 Proof.
   split.
   - intros H. destruct (int_of_str s) as [n|] eqn:En.
     + rewrite (normalize_version_str_int s n En), normalize_version_int in H.
       destruct ((1 <=? n) && (n <=? 40)) eqn:E; [|discriminate H]. injection H as <-. left. split; [reflexivity|lia].
     + rewrite (normalize_version_str_name s En) in H.
-      destruct (assoc_sz (upper s) MICRO_VERSION_MAPPING) as [y|] eqn:E; [|discriminate H].
+      destruct (assoc_sz (py_upper s) MICRO_VERSION_MAPPING) as [y|] eqn:E; [|discriminate H].
       injection H as <-. right. apply assoc_micro_names. exact E.
   - intros [[Hn Hx]|(k & Hk & Hu & ->)].
     + rewrite (normalize_version_str_int s x Hn), normalize_version_int.
@@ -234,7 +348,7 @@ Proof.
     + apply normalize_version_micro_name; assumption.
 Qed.
 Corollary normalize_version_str_refused s :
-  (forall n, int_of_str s = Some n -> n < 1 \/ 40 < n) -> (forall k, 0 <= k <= 3 -> upper s <> name_M k) ->
+  (forall n, int_of_str s = Some n -> n < 1 \/ 40 < n) -> (forall k, 0 <= k <= 3 -> py_upper s <> name_M k) ->
   normalize_version (VStr s) = Err ValueError.
 Proof.
   intros Hi Hn. destruct (normalize_version (VStr s)) as [[x|]|e] eqn:E.
@@ -246,11 +360,11 @@ Proof.
 Qed.
 
 (* the result does not depend on the letter case of the argument *)
-Theorem normalize_version_upper s : normalize_version (VStr (upper s)) = normalize_version (VStr s).
+Theorem normalize_version_upper s : normalize_version (VStr (py_upper s)) = normalize_version (VStr s).
 Proof.
-  rewrite !normalize_version_eq. unfold ver_pre. cbn [py_int_val]. rewrite int_of_str_upper, upper_idem. reflexivity.
+  rewrite !normalize_version_eq. unfold ver_pre. cbn [py_int_val]. rewrite int_of_str_upper, py_upper_idem. reflexivity.
 Qed.
-Corollary normalize_version_case s t : upper s = upper t -> normalize_version (VStr s) = normalize_version (VStr t).
+Corollary normalize_version_case s t : py_upper s = py_upper t -> normalize_version (VStr s) = normalize_version (VStr t).
 Proof. intros H. rewrite <- (normalize_version_upper s), <- (normalize_version_upper t), H. reflexivity. Qed.
 
 (* ---- normalize_mode ---- *)
@@ -259,7 +373,7 @@ Proof.
   unfold normalize_mode. destruct v as [|b|z|s]; [discriminate| | |].
   - destruct (memZ (if b then 1 else 0) mode_values); intros H; [discriminate H|injection H as <-; reflexivity].
   - destruct (memZ z mode_values); intros H; [discriminate H|injection H as <-; reflexivity].
-  - destruct (assoc_sz (lower s) MODE_MAPPING); intros H; [discriminate H|injection H as <-; reflexivity].
+  - destruct (assoc_sz (py_lower s) MODE_MAPPING); intros H; [discriminate H|injection H as <-; reflexivity].
 Qed.
 
 Lemma mode_values_mem z : memZ z mode_values = true <-> VersionLemmas.valid_mode z.
@@ -290,7 +404,7 @@ Proof.
     apply mode_values_mem. exact E.
   - destruct (memZ z mode_values) eqn:E; intros H; [|discriminate H]. injection H as <-.
     apply mode_values_mem. exact E.
-  - destruct (assoc_sz (lower s) MODE_MAPPING) as [x|] eqn:E; intros H; [|discriminate H]. injection H as <-.
+  - destruct (assoc_sz (py_lower s) MODE_MAPPING) as [x|] eqn:E; intros H; [|discriminate H]. injection H as <-.
     apply assoc_mode_names in E. unfold VersionLemmas.valid_mode.
     destruct E as [[_ ->]|[[_ ->]|[[_ ->]|[[_ ->]|[_ ->]]]]]; auto 6.
 Qed.
@@ -299,25 +413,25 @@ Proof.
   split; [|intros ->; reflexivity]. unfold normalize_mode. destruct v as [|b|z|s]; [reflexivity| | |].
   - destruct (memZ (if b then 1 else 0) mode_values); discriminate.
   - destruct (memZ z mode_values); discriminate.
-  - destruct (assoc_sz (lower s) MODE_MAPPING); discriminate.
+  - destruct (assoc_sz (py_lower s) MODE_MAPPING); discriminate.
 Qed.
 (* integers: exactly the five mode constants *)
 Theorem normalize_mode_int z :
   normalize_mode (VInt z) = if memZ z [1; 2; 4; 8; 13] then Ok (Some z) else Err ValueError.
 Proof. reflexivity. Qed.
 (* strings: only the lower-case form matters; the five names map to 1, 2, 4, 8, 13 *)
-Theorem normalize_mode_lower s : normalize_mode (VStr (lower s)) = normalize_mode (VStr s).
-Proof. unfold normalize_mode. rewrite lower_idem. reflexivity. Qed.
-Corollary normalize_mode_case s t : lower s = lower t -> normalize_mode (VStr s) = normalize_mode (VStr t).
+Theorem normalize_mode_lower s : normalize_mode (VStr (py_lower s)) = normalize_mode (VStr s).
+Proof. unfold normalize_mode. rewrite py_lower_idem. reflexivity. Qed.
+Corollary normalize_mode_case s t : py_lower s = py_lower t -> normalize_mode (VStr s) = normalize_mode (VStr t).
 Proof. intros H. rewrite <- (normalize_mode_lower s), <- (normalize_mode_lower t), H. reflexivity. Qed.
 Theorem normalize_mode_str_iff s m :
   normalize_mode (VStr s) = Ok (Some m) <->
-  (lower s = str_of_string "numeric" /\ m = 1) \/ (lower s = str_of_string "alphanumeric" /\ m = 2) \/
-  (lower s = str_of_string "byte" /\ m = 4) \/ (lower s = str_of_string "kanji" /\ m = 8) \/
-  (lower s = str_of_string "hanzi" /\ m = 13).
+  (py_lower s = str_of_string "numeric" /\ m = 1) \/ (py_lower s = str_of_string "alphanumeric" /\ m = 2) \/
+  (py_lower s = str_of_string "byte" /\ m = 4) \/ (py_lower s = str_of_string "kanji" /\ m = 8) \/
+  (py_lower s = str_of_string "hanzi" /\ m = 13).
 Proof.
   rewrite <- assoc_mode_names. unfold normalize_mode.
-  destruct (assoc_sz (lower s) MODE_MAPPING) as [x|]; split; intros H; try discriminate H; congruence.
+  destruct (assoc_sz (py_lower s) MODE_MAPPING) as [x|]; split; intros H; try discriminate H; congruence.
 Qed.
 
 (* ---- normalize_errorlevel ---- *)
@@ -327,7 +441,7 @@ Proof.
   - destruct a; intros H; [discriminate H|injection H as <-; reflexivity].
   - destruct (memZ (if b then 1 else 0) error_values); intros H; [discriminate H|injection H as <-; reflexivity].
   - destruct (memZ z error_values); intros H; [discriminate H|injection H as <-; reflexivity].
-  - destruct (assoc_sz (upper s) ERROR_MAPPING); intros H; [discriminate H|injection H as <-; reflexivity].
+  - destruct (assoc_sz (py_upper s) ERROR_MAPPING); intros H; [discriminate H|injection H as <-; reflexivity].
 Qed.
 Definition valid_level (e : Z) : Prop := e = 1 \/ e = 0 \/ e = 3 \/ e = 2.
 Lemma error_values_mem z : memZ z error_values = true <-> valid_level z.
@@ -353,7 +467,7 @@ Proof.
     apply error_values_mem. exact E.
   - destruct (memZ z error_values) eqn:E; intros H; [|discriminate H]. injection H as <-.
     apply error_values_mem. exact E.
-  - destruct (assoc_sz (upper s) ERROR_MAPPING) as [x|] eqn:E; intros H; [|discriminate H]. injection H as <-.
+  - destruct (assoc_sz (py_upper s) ERROR_MAPPING) as [x|] eqn:E; intros H; [|discriminate H]. injection H as <-.
     apply assoc_error_names in E. unfold valid_level.
     destruct E as [[_ ->]|[[_ ->]|[[_ ->]|[_ ->]]]]; auto.
 Qed.
@@ -363,24 +477,66 @@ Proof.
   - destruct a; split; intros H; try discriminate H; auto. destruct H as [_ H]. discriminate H.
   - split; [|intros [H _]; discriminate H]. destruct (memZ (if b then 1 else 0) error_values); discriminate.
   - split; [|intros [H _]; discriminate H]. destruct (memZ z error_values); discriminate.
-  - split; [|intros [H _]; discriminate H]. destruct (assoc_sz (upper s) ERROR_MAPPING); discriminate.
+  - split; [|intros [H _]; discriminate H]. destruct (assoc_sz (py_upper s) ERROR_MAPPING); discriminate.
 Qed.
 Theorem normalize_errorlevel_int z a :
   normalize_errorlevel (VInt z) a = if memZ z [1; 0; 3; 2] then Ok (Some z) else Err ValueError.
 Proof. reflexivity. Qed.
 (* strings: only the upper-case form matters; L, M, Q, H -> 1, 0, 3, 2 *)
-Theorem normalize_errorlevel_upper s a : normalize_errorlevel (VStr (upper s)) a = normalize_errorlevel (VStr s) a.
-Proof. unfold normalize_errorlevel. rewrite upper_idem. reflexivity. Qed.
+Theorem normalize_errorlevel_upper s a : normalize_errorlevel (VStr (py_upper s)) a = normalize_errorlevel (VStr s) a.
+Proof. unfold normalize_errorlevel. rewrite py_upper_idem. reflexivity. Qed.
 Corollary normalize_errorlevel_case s t a :
-  upper s = upper t -> normalize_errorlevel (VStr s) a = normalize_errorlevel (VStr t) a.
+  py_upper s = py_upper t -> normalize_errorlevel (VStr s) a = normalize_errorlevel (VStr t) a.
 Proof. intros H. rewrite <- (normalize_errorlevel_upper s), <- (normalize_errorlevel_upper t), H. reflexivity. Qed.
 Theorem normalize_errorlevel_str_iff s a e :
   normalize_errorlevel (VStr s) a = Ok (Some e) <->
-  (upper s = [76] /\ e = 1) \/ (upper s = [77] /\ e = 0) \/ (upper s = [81] /\ e = 3) \/ (upper s = [72] /\ e = 2).
+  (py_upper s = [76] /\ e = 1) \/ (py_upper s = [77] /\ e = 0) \/ (py_upper s = [81] /\ e = 3) \/ (py_upper s = [72] /\ e = 2).
 Proof.
   rewrite <- assoc_error_names. unfold normalize_errorlevel.
-  destruct (assoc_sz (upper s) ERROR_MAPPING) as [x|]; split; intros H; try discriminate H; congruence.
+  destruct (assoc_sz (py_upper s) ERROR_MAPPING) as [x|]; split; intros H; try discriminate H; congruence.
 Qed.
+
+(* The accepted level strings are the eight one-letter ASCII strings: Python's upper() maps no other str to "L", "M", "Q",
+   "H" ('\u1e96'.upper() is 'H' + U+0331, '\ufb02'.upper() is 'FL', '\u017f'.upper() is 'S'). *)
+Lemma upper_images_no_level :
+  forallb (fun p => match snd p with [y] => negb (memZ y [76; 77; 81; 72]) | _ => true end) UPPER_SPECIAL = true.
+Proof. vm_compute. reflexivity. Qed.
+Lemma upper_single_level s y : memZ y [76; 77; 81; 72] = true -> py_upper s = [y] -> s = [y] \/ s = [y + 32].
+Proof.
+  intros Hy H. destruct s as [|c [|c2 r]].
+  - discriminate H.
+  - rewrite py_upper_cons in H. cbn [py_upper flat_map] in H. rewrite app_nil_r in H.
+    destruct (py_upper_cp_cases c) as [[_ Hc]|Hc].
+    + rewrite Hc in H. injection H as H. unfold ascii_upper_cp in H. unfold memZ in Hy. cbn [existsb] in Hy.
+      destruct ((97 <=? c) && (c <=? 122)) eqn:E; [right; f_equal; lia|left; f_equal; lia].
+    + exfalso. rewrite H in Hc. pose proof (proj1 (forallb_forall _ _) upper_images_no_level _ Hc) as F. cbn [snd] in F.
+      rewrite Hy in F. discriminate F.
+  - exfalso. rewrite !py_upper_cons in H. pose proof (py_upper_cp_nonempty c) as N1. pose proof (py_upper_cp_nonempty c2) as N2.
+    destruct (py_upper_cp c) as [|a1 [|a2 l1]]; [contradiction| |discriminate H].
+    destruct (py_upper_cp c2) as [|b1 l2]; [contradiction|discriminate H].
+Qed.
+Theorem normalize_errorlevel_str_ascii s a e :
+  normalize_errorlevel (VStr s) a = Ok (Some e) -> In s [[76]; [108]; [77]; [109]; [81]; [113]; [72]; [104]].
+Proof.
+  intros H. apply normalize_errorlevel_str_iff in H.
+  destruct H as [[H _]|[[H _]|[[H _]|[H _]]]]; apply upper_single_level in H; try reflexivity;
+    destruct H as [-> | ->]; cbn; tauto.
+Qed.
+(* Python's case mappings at work (DESIGN.md 11.14.1): the Kelvin sign U+212A lowers to 'k', so 'Kanji' with it IS kanji;
+   dotless i U+0131 uppers to 'I' but lowers to itself, e-acute stays non-ASCII, long s U+017F uppers to 'S', the
+   ligature U+FB02 to 'FL', U+1E96 to 'H' + U+0331: all refused, as by /repo. *)
+Example case_mapping_examples :
+  normalize_mode (VStr [8490; 97; 110; 106; 105]) = Ok (Some 8) /\
+  normalize_mode (VStr [8490; 65; 78; 74; 73]) = Ok (Some 8) /\
+  normalize_mode (VStr [107; 97; 110; 106; 305]) = Err ValueError /\
+  normalize_mode (VStr [107; 97; 110; 106; 304]) = Err ValueError /\
+  normalize_mode (VStr [98; 121; 116; 233]) = Err ValueError /\
+  normalize_errorlevel (VStr [383]) true = Err ValueError /\
+  normalize_errorlevel (VStr [7830]) true = Err ValueError /\
+  normalize_errorlevel (VStr [64258]) true = Err ValueError /\
+  normalize_version (VStr [109; 305]) = Err ValueError /\
+  normalize_version (VStr [383; 49]) = Err ValueError.
+Proof. vm_compute. repeat split; reflexivity. Qed.
 
 (* ---- normalize_mask ---- *)
 Definition mask_post (k : Z) (is_micro : bool) : res (option Z) :=
@@ -1623,14 +1779,14 @@ Print Assumptions encode_args_spelling.
 Corollary encode_args_version_str_int pom error s n mode mask eci micro boost : int_of_str s = Some n ->
   encode_args pom error (VStr s) mode mask eci micro boost = encode_args pom error (VInt n) mode mask eci micro boost.
 Proof. intros H. apply encode_args_spelling; try reflexivity. apply normalize_version_str_int. exact H. Qed.
-Corollary encode_args_version_case pom error s t mode mask eci micro boost : upper s = upper t ->
+Corollary encode_args_version_case pom error s t mode mask eci micro boost : py_upper s = py_upper t ->
   encode_args pom error (VStr s) mode mask eci micro boost = encode_args pom error (VStr t) mode mask eci micro boost.
 Proof. intros H. apply encode_args_spelling; try reflexivity. apply normalize_version_case. exact H. Qed.
 (* error levels and modes in any letter case *)
-Corollary encode_args_error_case pom s t version mode mask eci micro boost : upper s = upper t ->
+Corollary encode_args_error_case pom s t version mode mask eci micro boost : py_upper s = py_upper t ->
   encode_args pom (VStr s) version mode mask eci micro boost = encode_args pom (VStr t) version mode mask eci micro boost.
 Proof. intros H. apply encode_args_spelling; try reflexivity. apply normalize_errorlevel_case. exact H. Qed.
-Corollary encode_args_mode_case pom error version s t mask eci micro boost : lower s = lower t ->
+Corollary encode_args_mode_case pom error version s t mask eci micro boost : py_lower s = py_lower t ->
   encode_args pom error version (VStr s) mask eci micro boost = encode_args pom error version (VStr t) mask eci micro boost.
 Proof. intros H. apply encode_args_spelling; try reflexivity. apply normalize_mode_case. exact H. Qed.
 (* names and constants *)
@@ -1712,6 +1868,8 @@ Print Assumptions normalize_version_str_iff.
 Print Assumptions normalize_version_upper.
 Print Assumptions normalize_mode_str_iff.
 Print Assumptions normalize_errorlevel_str_iff.
+Print Assumptions normalize_errorlevel_str_ascii.
+Print Assumptions int_of_str_upper.
 Print Assumptions normalize_mask_str_int.
 Print Assumptions stage_prepare_exn.
 Print Assumptions stage_version_lookups.
